@@ -8,6 +8,7 @@ specification.
 from __future__ import annotations
 
 import hashlib
+import json
 from fractions import Fraction
 from typing import Any
 
@@ -153,7 +154,7 @@ def expr_to_json(e: Any, bindings: dict[str, Any]) -> dict:
                 raise Unsupported("call of non-variable")
             if e.function.name == "pytato.zero":
                 # documented meaning: zero, whatever the argument (a dependency only)
-                return {"k": "c", "v": 0}
+                return {"k": "c", "v": 0, "zero": True}
             return {"k": "call", "f": func_id(e.function.name),
                     "fn": e.function.name, "p": [rec(p) for p in e.parameters]}
         if isinstance(e, prim.NaN):
@@ -217,6 +218,40 @@ def data_name(arr: np.ndarray) -> str:
     return "_dw_" + h.hexdigest()[:10]
 
 
+class Ref:
+    """A reference to an earlier node position inside a node record under
+    construction (so that a canonical, position-independent form exists)."""
+    __slots__ = ("pos",)
+
+    def __init__(self, pos: int) -> None:
+        self.pos = pos
+
+
+def _deref(o: Any) -> Any:
+    if isinstance(o, Ref):
+        return o.pos
+    if isinstance(o, dict):
+        return {k: _deref(v) for k, v in o.items()}
+    if isinstance(o, (list, tuple)):
+        return [_deref(v) for v in o]
+    return o
+
+
+def _canon(o: Any, order: list[int], strip_tags: bool) -> Any:
+    """Node record with child positions replaced by the ordinal of their first
+    occurrence; order collects the child positions in that order."""
+    if isinstance(o, Ref):
+        if o.pos not in order:
+            order.append(o.pos)
+        return f"#{order.index(o.pos)}"
+    if isinstance(o, dict):
+        return {k: _canon(v, order, strip_tags) for k, v in sorted(o.items())
+                if not (strip_tags and k in ("meta", "rd", "rdtags"))}
+    if isinstance(o, (list, tuple)):
+        return [_canon(v, order, strip_tags) for v in o]
+    return o
+
+
 class GraphExporter:
     """Exports one root (Array or DictOfNamedArrays-like) to a graph record
     and collects the inputs that need a valuation."""
@@ -228,6 +263,8 @@ class GraphExporter:
         self.inputs: dict[str, dict] = {}
         self.funcs: list[dict] = []
         self.func_pos: dict[int, int] = {}
+        self.data_objs: dict[int, int] = {}
+        self.data_bufs: dict[Any, int] = {}
 
     # -- inputs
     def _add_input(self, name: str, info: dict) -> None:
@@ -236,6 +273,9 @@ class GraphExporter:
             raise Unsupported(f"two inputs named {name} with different type")
         if old is None:
             self.inputs[name] = info
+
+    def _r(self, x: Any) -> Ref:
+        return Ref(self.rec(x))
 
     def rec(self, x: Any) -> int:
         """-> 1-based position of array *x* in self.nodes"""
@@ -287,25 +327,25 @@ class GraphExporter:
             self._add_input(name, {"shape": _shape(x.shape), "dtype": dt(x.dtype),
                                    "src": "recv"})
         elif isinstance(x, IndexLambda):
-            bind = {k: self.rec(v) for k, v in sorted(x.bindings.items())}
+            bind = {k: self._r(v) for k, v in sorted(x.bindings.items())}
             nd = {"kind": "il", "expr": expr_to_json(x.expr, dict(x.bindings)),
                   "bind": bind,
                   "rd": {k: sorted(repr(t) for t in v.tags)
                          for k, v in sorted(x.var_to_reduction_descr.items())}}
         elif isinstance(x, Stack):
-            nd = {"kind": "stack", "arrays": [self.rec(a) for a in x.arrays],
+            nd = {"kind": "stack", "arrays": [self._r(a) for a in x.arrays],
                   "axis": x.axis}
         elif isinstance(x, Concatenate):
-            nd = {"kind": "concat", "arrays": [self.rec(a) for a in x.arrays],
+            nd = {"kind": "concat", "arrays": [self._r(a) for a in x.arrays],
                   "axis": x.axis}
         elif isinstance(x, Roll):
-            nd = {"kind": "roll", "a": self.rec(x.array), "shift": int(x.shift),
+            nd = {"kind": "roll", "a": self._r(x.array), "shift": int(x.shift),
                   "axis": x.axis}
         elif isinstance(x, AxisPermutation):
-            nd = {"kind": "perm", "a": self.rec(x.array),
+            nd = {"kind": "perm", "a": self._r(x.array),
                   "perm": [int(p) for p in x.axis_permutation]}
         elif isinstance(x, Reshape):
-            nd = {"kind": "reshape", "a": self.rec(x.array), "order": x.order,
+            nd = {"kind": "reshape", "a": self._r(x.array), "order": x.order,
                   "newshape": _shape(x.newshape)}
         elif isinstance(x, (BasicIndex, AdvancedIndexInContiguousAxes,
                             AdvancedIndexInNoncontiguousAxes)):
@@ -320,13 +360,13 @@ class GraphExporter:
                     items.append({"t": "nslice", "start": int(i.start),
                                   "stop": int(i.stop), "step": int(i.step)})
                 elif isinstance(i, Array):
-                    items.append({"t": "arr", "n": self.rec(i)})
+                    items.append({"t": "arr", "n": self._r(i)})
                 else:
                     raise Unsupported(f"index item {i!r}")
-            nd = {"kind": "index", "a": self.rec(x.array), "idx": items,
+            nd = {"kind": "index", "a": self._r(x.array), "idx": items,
                   "cls": type(x).__name__}
         elif isinstance(x, Einsum):
-            args = [self.rec(a) for a in x.args]
+            args = [self._r(a) for a in x.args]
             rdims = sorted({d.dim for acc in x.access_descriptors for d in acc
                             if not isinstance(d, EinsumElementwiseAxis)})
             if rdims != list(range(len(rdims))):
@@ -339,25 +379,25 @@ class GraphExporter:
                                for k, v in x.redn_axis_to_redn_descr.items())}
         elif isinstance(x, CSRMatmul):
             m = x.matrix
-            nd = {"kind": "csr", "data": self.rec(m.elem_values),
-                  "cols": self.rec(m.elem_col_indices),
-                  "rows": self.rec(m.row_starts), "x": self.rec(x.array),
+            nd = {"kind": "csr", "data": self._r(m.elem_values),
+                  "cols": self._r(m.elem_col_indices),
+                  "rows": self._r(m.row_starts), "x": self._r(x.array),
                   "mshape": _shape(m.shape)}
         elif isinstance(x, NamedCallResult):
             call = x._container
             assert isinstance(call, Call)
             fi = self.func(call.function)
             nd = {"kind": "ncr", "fn": fi, "name": x.name,
-                  "bind": {k: self.rec(v) for k, v in sorted(call.bindings.items())}}
+                  "bind": {k: self._r(v) for k, v in sorted(call.bindings.items())}}
         elif isinstance(x, NamedArray):
             cont = x._container
             if isinstance(cont, DictOfNamedArrays):
-                nd = {"kind": "alias", "a": self.rec(cont._data[x.name])}
+                nd = {"kind": "alias", "a": self._r(cont._data[x.name])}
             else:
                 raise Unsupported(f"named array of {type(cont).__name__}")
         elif isinstance(x, DistributedSendRefHolder):
-            nd = {"kind": "alias", "a": self.rec(x.passthrough_data),
-                  "send": {"data": self.rec(x.send.data), "dest": int(x.send.dest_rank),
+            nd = {"kind": "alias", "a": self._r(x.passthrough_data),
+                  "send": {"data": self._r(x.send.data), "dest": int(x.send.dest_rank),
                            "tag": repr(x.send.comm_tag)}}
         else:
             raise Unsupported(f"node kind {type(x).__name__}")
@@ -365,6 +405,23 @@ class GraphExporter:
         nd["dtype"] = dt(x.dtype)
         nd["meta"] = _meta(x)
         nd["cls"] = type(x).__name__
+        if nd["kind"] == "in" and nd.get("src") == "dw":
+            # DataWrapper equality is identity of the wrapped object
+            nd["dobj"] = self.data_objs.setdefault(id(x.data), len(self.data_objs) + 1)
+            d = x.data
+            bkey = (d.__array_interface__["data"], d.shape, d.strides, str(d.dtype)) \
+                if isinstance(d, np.ndarray) else ("obj", id(d))
+            nd["dbuf"] = self.data_bufs.setdefault(bkey, len(self.data_bufs) + 1)
+        order: list[int] = []
+        loc = json.dumps(_canon(nd, order, False), sort_keys=True)
+        order_nt: list[int] = []
+        loc_nt = json.dumps(_canon(nd, order_nt, True), sort_keys=True)
+        nd = _deref(nd)
+        nd["loc"] = hashlib.sha256(loc.encode()).hexdigest()[:20]
+        nd["kids"] = order
+        nd["loc_nt"] = hashlib.sha256(loc_nt.encode()).hexdigest()[:20]
+        nd["kids_nt"] = order_nt
+        nd["zc"] = '"zero": true' in loc
         self.nodes.append(nd)
         self.keep.append(x)
         self.pos[id(x)] = len(self.nodes)
